@@ -73,6 +73,7 @@ Inductive expr :=
 | EBe (w : nat) (a : expr)               (* binary.BigEndian.Uint16/32/64 (w = 2/4/8) *)
 | EAppend (a b : expr)                   (* append(a, b), one element *)
 | ELen64 (a : expr)                      (* math/bits.Len64 *)
+| EHas (m k : expr)                      (* _, ok := m[k] for a set m (map[K]struct{}, K integer) *)
 | EMakeBytes (n : expr)                  (* make([]byte, n) *)
 | EMakeList (n : expr) (zero : value)    (* make([]T, n) *)
 | EUnsupported (why : string).
@@ -236,6 +237,14 @@ Definition be_val (w : nat) (va : value) : eres :=
   | _ => EStuck
   end.
 
+(** sets of integers (map[K]struct{}): a list of keys; insertion is [EAppend] *)
+Definition int_is (z : Z) (v : value) : bool := match v with VInt y => Z.eqb y z | _ => false end.
+Definition has_val (vm vk : value) : eres :=
+  match vm, vk with
+  | VList l, VInt z => EV (VBool (existsb (int_is z) l))
+  | _, _ => EStuck
+  end.
+
 Fixpoint eval (e : env) (x : expr) {struct x} : eres :=
   match x with
   | EVar n => match nth_error e n with
@@ -294,6 +303,7 @@ Fixpoint eval (e : env) (x : expr) {struct x} : eres :=
                   | VStr s, VInt z => EV (VStr (s ++ [Z.to_N z]))
                   | _, _ => EStuck
                   end))
+  | EHas m k => ebind (eval e m) (fun vm => ebind (eval e k) (fun vk => has_val vm vk))
   | ELen64 a => ebind (eval e a) (fun va => match va with VInt z => EV (VInt (len64 z)) | _ => EStuck end)
   | EMakeBytes n => ebind (eval e n) (fun vn =>
                   match vn with
